@@ -19,7 +19,11 @@ RULE = ("(1) the parameter splitter on every text of length <= 5 over {a , space
         "on the values, max/min plain + inverted must partition all members; parent(n), n in 0..5 and default, and "
         "name() for every node of 14 small documents reached by key, index and Array-of-Hashes pass-through paths, and "
         "for the nodes a filtered deep traversal (**.key, **[key=1], **[key>0]) reaches in 6 fixed + 60 seeded documents "
-        "with lists of hashes (also name() of each climbed ancestor); has_child on hashes, lists, nulls, scalars; "
+        "with lists of hashes (also name() of each climbed ancestor), and for the nodes below an Array slice "
+        "<list>[a:b].<key | key.key | key[0]> over every list of hashes of 4 fixed + 60 seeded documents (3-5 members, equal "
+        "members likely; every slice of the fixed, 4 per seeded list; mostly >= 2 members selected; both notations): "
+        "parent(n) n in default,0..4, name() of each climbed ancestor, name() of the reached nodes, and each parent() result "
+        "must be held by its reported parent under its reported parentref; has_child on hashes, lists, nulls, scalars; "
         "collections holding containers (crash classes).  Observable: result node addresses in order (identity of the "
         "yielded container, else parent identity + parentref), for name() the yielded key/index, or the error class.  "
         "distinct_nontrivial = distinct cases with a non-empty result that is a proper subset of the members or a "
@@ -80,6 +84,17 @@ def addr_of_result(nc, table, doc):
     return table[id(nc.parent)] + [codec.ref_of(nc.parent, nc.parentref)]
 
 
+def held_under(nc):
+    """Is the yielded node what its reported parent holds under its reported parentref?  (None: no parent reported)"""
+    if nc.parent is None:
+        return None
+    try:
+        x = nc.parent[nc.parentref]
+    except Exception:  # noqa
+        return False
+    return x is nc.node or (not isinstance(x, (dict, list)) and type(x) is type(nc.node) and x == nc.node)
+
+
 def anchorize(docj):
     """Give every non-null scalar its own anchor: json_to_ruamel then builds the wrapper objects the
     round-trip loader yields for anchored scalars (ScalarBoolean, ScalarInt, ScalarFloat,
@@ -138,8 +153,10 @@ def run_kw(docj, path, want_kw, want_inv, want_params):
                 names.append(nc.node)
             else:
                 res.append(addr_of_result(nc, table, doc))
+                held.append(held_under(nc))
+    held = []
     st, val = cc.guarded(go)
-    got = {"names": names} if want_kw == "NAME" else {"nodes": res}
+    got = {"names": names} if want_kw == "NAME" else {"nodes": res, "held": held}
     if st == "ok":
         return True, got
     if st == "timeout":
@@ -334,6 +351,11 @@ def kw_chunk(cases):
         if got != mnodes:
             sig = "kw-mismatch:%s%s:%s" % ("!" if c["inv"] else "", c["kw"], c["fam"].split("/")[0])
             viol.append((sig, what + " yielded %s; by definition %s" % (got, mnodes), case))
+            continue
+        if c.get("pref") and "err" not in im and False in im.get("held", []):
+            bad = [a for a, h in zip(got, im["held"]) if h is False]
+            viol.append(("parent-result-parentref", what + " yielded the right ancestor(s) %s but with a parent reference under "
+                         "which the reported parent does not hold them (name() of the result is that reference)" % bad, case))
             continue
         nmem = c.get("members", 0)
         if got and (c["kw"] in ("PARENT",) and c["params"] not in ("0",) or 0 < len(got) < nmem):
@@ -584,6 +606,104 @@ def deep_parent_cases(rng, nrandom):
     return cases
 
 
+# lists of hashes addressed by a slice [a:b]: parent(n) / name() on what lies below the sliced elements
+SLICE_DOCS = [
+    {"stages": [{"id": "f", "steps": ["a", "b"], "m": {"x": 1}}, {"id": "b", "steps": ["c"], "m": {"x": 2}},
+                {"id": "t", "steps": ["d", "e"], "m": {"x": 3}}, {"id": "s", "steps": ["f"], "m": {"x": 4}}]},
+    [{"a": 1, "b": {"c": 1}}, {"a": 1, "b": {"c": 1}}, {"a": 2, "b": {"c": 1}}],
+    {"top": {"l": [{"a": 0}, {"a": 0}, {"a": 0}, {"a": 0}, {"a": 0}], "z": 1}},
+    {"l": [{"a": [1], "b": 0}, {"a": [2, 3], "b": 0}, {"a": [4], "b": 1}], "k": [{"a": 5}, {"a": 6}]},
+]
+
+
+def random_slice_doc(rng):
+    """a list of 3-5 hashes (equal members likely), each with some of: a scalar, a hash, a list; at the root or below 1-2 keys"""
+    n = rng.randint(3, 5)
+    keys = rng.sample(["a", "b", "c", "m"], rng.randint(1, 3))
+    shape = {k: rng.choice(["scalar", "scalar", "hash", "list"]) for k in keys}
+
+    def member():
+        out = {}
+        for k in keys:
+            if rng.random() < 0.1:
+                continue
+            if shape[k] == "scalar":
+                out[k] = rng.randint(0, 1)
+            elif shape[k] == "hash":
+                out[k] = {kk: rng.randint(0, 1) for kk in rng.sample(["x", "y"], rng.randint(1, 2))}
+            else:
+                out[k] = [rng.randint(0, 1) for _ in range(rng.randint(1, 2))]
+        return out or {keys[0]: 0}
+    base = member()
+    lst = [(json.loads(json.dumps(base)) if rng.random() < 0.4 else member()) for _ in range(n)]
+    r = rng.random()
+    if r < 0.2:
+        return lst
+    if r < 0.7:
+        return {rng.choice(["l", "stages"]): lst, "z": rng.randint(0, 1)}
+    return {"top": {"l": lst}, "z": [rng.randint(0, 1)]}
+
+
+def slice_tails(members):
+    """[(address tail, dot path tail)] of the key / key.key / key[0] paths present in EVERY one of the hashes"""
+    def tails(v):
+        out = []
+        for k, x in v.items():
+            out.append(((("k", k),), k))
+            if isinstance(x, dict):
+                out += [((("k", k), ("k", kk)), "%s.%s" % (k, kk)) for kk in x]
+            elif isinstance(x, list) and x:
+                out.append(((("k", k), ("i", 0)), "%s[0]" % k))
+        return out
+    common = None
+    for m in members:
+        if not isinstance(m, dict):
+            return []
+        t = tails(m)
+        common = t if common is None else [x for x in common if x in t]
+    return common or []
+
+
+def slice_parent_cases(rng, nrandom):
+    """<list>[a:b].<tail>[parent(n)], ...[parent(n)][name()], ...[name()] for every list of hashes of the documents and
+    every slice 0 <= a < b <= len (the members a..b-1; mostly >= 2 of them): the n-th ancestor of EACH reached node, the
+    reference each ancestor is held under, in order."""
+    cases = []
+    docs = list(SLICE_DOCS) + [random_slice_doc(rng) for _ in range(nrandom)]
+    for dn, d in enumerate(docs):
+        dj = plain_to_json(d)
+        for addr, lpath in all_nodes(d):
+            lst = d
+            for (t, x) in addr:
+                lst = lst[x]
+            if not (isinstance(lst, list) and len(lst) >= 2 and all(isinstance(m, dict) for m in lst)):
+                continue
+            slices = [(a, b) for a in range(len(lst)) for b in range(a + 1, len(lst) + 1)]
+            if dn >= len(SLICE_DOCS):
+                slices = rng.sample(slices, min(4, len(slices)))
+            for (a, b) in slices:
+                tl = slice_tails(lst[a:b])
+                if dn >= len(SLICE_DOCS) and len(tl) > 3:
+                    tl = rng.sample(tl, 3)
+                for tail, ttext in tl:
+                    fslash = (a + b + len(ttext)) % 2 == 1
+                    if fslash:
+                        base = "/" + lpath.replace(".", "/") + "[%d:%d]/" % (a, b) + ttext.replace(".", "/")
+                    else:
+                        base = lpath + "[%d:%d]." % (a, b) + ttext
+                    ats = [addr + [["i", i]] + [list(x) for x in tail] for i in range(a, b)]
+                    fam = "slice" if b - a >= 2 else "slice1"
+                    common = {"doc": dj, "inv": False, "members": 0}
+                    for n in ["", "0", "1", "2", "3", "4"]:
+                        cases.append(dict(common, fam="parent/" + fam, path=base, ats=ats, kw="PARENT", params=n, pref=True))
+                        steps = 1 if n == "" else int(n)
+                        if steps >= 1 and len(ats[0]) >= steps:
+                            cases.append(dict(common, fam="name/%s-parent" % fam, path="%s[parent(%s)]" % (base, n),
+                                              ats=[x[:len(x) - steps] for x in ats], kw="NAME", params=""))
+                    cases.append(dict(common, fam="name/" + fam, path=base, ats=ats, kw="NAME", params=""))
+    return cases
+
+
 def odd_cases():
     """Collections holding containers, odd parameters: the crash classes of the model."""
     cases = []
@@ -668,6 +788,7 @@ def run(chk: core.Check):
         _absorb(chk, *r)
     cases = seq_cases(5) + hash_cases(4, rng, tier) + parent_cases() + odd_cases()
     cases += deep_parent_cases(rng, 60 if tier == "quick" else 600)
+    cases += slice_parent_cases(random.Random(chk.seed * 17 + 1), 60 if tier == "quick" else 600)
     cases += random_cases(rng, 3000 if tier == "quick" else 100000)
     chk.extra_cov["cases_generated"] = len(cases)
     rng.shuffle(cases)
